@@ -26,6 +26,7 @@ package interp
 import (
 	"fmt"
 	"go/token"
+	"go/types"
 	"math/bits"
 
 	"verif/engine/smt"
@@ -39,10 +40,33 @@ type relDivKey struct {
 type relDivQR struct{ q, r *smt.Term }
 
 func init() {
+	// zzSameF64(a, b): a and b are the same float64 value (a == b, or both NaN).
+	// Decided syntactically (concrete true) when both are the identical term, so
+	// that mirror-form checks of float results never send fp.div to the solver.
+	zzExternals["zzSameF64"] = func(fr *frame, args []value) value {
+		sa, aok := args[0].(sym)
+		sb, bok := args[1].(sym)
+		if aok && bok && sa.t == sb.t {
+			return true
+		}
+		if !aok && !bok {
+			x, y := args[0].(float64), args[1].(float64)
+			return x == y || (x != x && y != y)
+		}
+		c := ctxOf(args[0], args[1])
+		ta, tb := termOf(c, args[0]), termOf(c, args[1])
+		return mkval(c.Or(c.FpCmp(smt.OFpEq, ta, tb), c.And(c.FpPred(smt.OFpIsNaN, ta), c.FpPred(smt.OFpIsNaN, tb))), types.Bool)
+	}
+	zzExternals["zzRelDivMode"] = func(fr *frame, args []value) value {
+		// 0 off; 1 signed relation x == q*c + r directly; 2 via magnitudes; 3 both (linked)
+		fr.i.ps.params["!reldiv"] = int(fr.asInt64(args[0]))
+		fr.i.ps.res.Assumes["integer division by constants encoded relationally (exact)"] = true
+		return nil
+	}
 	zzExternals["zzRelDiv"] = func(fr *frame, args []value) value {
 		ps := fr.i.ps
 		if args[0].(bool) {
-			ps.params["!reldiv"] = 1
+			ps.params["!reldiv"] = 3
 			ps.res.Assumes["integer division by constants encoded relationally (|x| == q*|c| + r, r < |c|; exact)"] = true
 		} else {
 			ps.params["!reldiv"] = 0
@@ -55,9 +79,10 @@ func init() {
 // form when the encoding is enabled and applicable.
 func relDivConst(fr *frame, op token.Token, x, y value) (value, bool) {
 	ps := fr.i.ps
-	if ps == nil || ps.params["!reldiv"] != 1 {
+	if ps == nil || ps.params["!reldiv"] == 0 {
 		return nil, false
 	}
+	mode := ps.params["!reldiv"]
 	sx, ok := x.(sym)
 	if !ok || isSym(y) || kfloat(sx.k) {
 		return nil, false
@@ -100,7 +125,7 @@ func relDivConst(fr *frame, op token.Token, x, y value) (value, bool) {
 	}
 	key := relDivKey{a, mag}
 	qr, ok := ps.relDiv[key]
-	if !ok {
+	if !ok && !(sg && mode == 1) {
 		sfx := fmt.Sprintf("%d_%d", w, mag)
 		q := c.App("divq_"+sfx, smt.BV(w), a)
 		r := c.App("divr_"+sfx, smt.BV(w), a)
@@ -116,6 +141,9 @@ func relDivConst(fr *frame, op token.Token, x, y value) (value, bool) {
 		ps.assume(c.ULe(qm, a))
 		qr = relDivQR{q, r}
 		ps.relDiv[key] = qr
+	}
+	if sg && mode != 2 {
+		return relDivSigned(ps, op, sx, cv, mag, yneg, qr, mode), true
 	}
 	if op == token.QUO {
 		q := qr.q
@@ -133,4 +161,48 @@ func relDivConst(fr *frame, op token.Token, x, y value) (value, bool) {
 		r = c.Ite(xneg, c.BvNeg(r), r)
 	}
 	return mkval(r, k), true
+}
+
+// relDivSigned: q = sdivq_c(x), r = sdivr_c(x) with x == q*c + r, |r| < |c|,
+// r has the sign of x or is 0, |q| <= (2^(w-1)-1)/|c| (unique solution: truncated
+// division). In mode 3 additionally linked to the magnitude form.
+func relDivSigned(ps *pathState, op token.Token, sx sym, cv *smt.Term, mag uint64, yneg bool, mq relDivQR, mode int) value {
+	c := sx.t.C
+	k := sx.k
+	w := kwidth(k)
+	if ps.relDivS == nil {
+		ps.relDivS = map[relDivKey]relDivQR{}
+	}
+	key := relDivKey{sx.t, cv.Val}
+	qr, ok := ps.relDivS[key]
+	if !ok {
+		sfx := fmt.Sprintf("%d_%d", w, cv.Val)
+		q := c.App("sdivq_"+sfx, smt.BV(w), sx.t)
+		r := c.App("sdivr_"+sfx, smt.BV(w), sx.t)
+		zero := c.BVC(w, 0)
+		m := c.BVC(w, mag)
+		lim := c.BVC(w, (uint64(1)<<uint(w-1)-1)/mag)
+		ps.assume(c.Eq(sx.t, c.BvAdd(c.BvMul(q, cv), r)))
+		ps.assume(c.SLt(r, m))
+		ps.assume(c.SLt(c.BvNeg(m), r))
+		ps.assume(c.SLe(q, lim))
+		ps.assume(c.SLe(c.BvNeg(lim), q))
+		ps.assume(c.Implies(c.SLe(zero, sx.t), c.SLe(zero, r)))
+		ps.assume(c.Implies(c.SLe(sx.t, zero), c.SLe(r, zero)))
+		if mode == 3 {
+			xneg := c.SLt(sx.t, zero)
+			qneg := xneg
+			if yneg {
+				qneg = c.Not(xneg)
+			}
+			ps.assume(c.Eq(q, c.Ite(qneg, c.BvNeg(mq.q), mq.q)))
+			ps.assume(c.Eq(r, c.Ite(xneg, c.BvNeg(mq.r), mq.r)))
+		}
+		qr = relDivQR{q, r}
+		ps.relDivS[key] = qr
+	}
+	if op == token.QUO {
+		return mkval(qr.q, k)
+	}
+	return mkval(qr.r, k)
 }
